@@ -530,7 +530,7 @@ fn run(ctx: &mut Ctx) {
 
 fn finish(m: &Merged, tier: Tier) -> Finish {
     let mut f = Finish {
-        rule: "inputs are generated trees (maps/lists/scalars, depth <= 3) whose every leaf is a unique id and whose keys include near-misses (Name/name/NAME/nam/name_, facts, keywords, literal-shaped and non-identifier keys); for each input all access paths of length <= 2 and a sample of length 3 over the input's own key/index alphabet (+ absent keys, len-1/len/len+1, usize::MAX, wrong step kind) are evaluated through constructors (and through text when expressible) and compared with an independent path walker. Symbol and function lookups over near-miss names likewise. Every case is non-trivial; distinct by (path, input)".into(),
+        rule: "inputs are generated trees (maps/lists/scalars, depth <= 3) whose every leaf is a unique id and whose keys include near-misses (Name/name/NAME/nam/name_, facts, keywords, literal-shaped and non-identifier keys); for each input all access paths of length <= 2 and a sample of length 3 over the input's own key/index alphabet (+ absent keys, len-1/len/len+1, usize::MAX, wrong step kind) are evaluated through constructors (and through text when expressible) and compared with an independent path walker. Plus a 220-level structure with its own id at every level and paths of 1..220 steps (straight, through lists, with one step replaced / dropped / doubled, rooted at `facts` and at the top-level field); several paths in one expression; look-alike path pairs; symbol-rooted paths incl. symbols holding none / false / 0 / empty string / []. Symbol and function lookups over near-miss names likewise. Every case is non-trivial; distinct by (path, input)".into(),
         exhaustive: false,
         exhaustive_part: "per generated input, paths of length <= 2 over that input's alphabet are complete".into(),
         ..Default::default()
